@@ -224,7 +224,14 @@ pub struct DateOffset {
 impl DateOffset {
     #[inline]
     pub fn apply(&self, mut date: NaiveDate) -> NaiveDate {
-        date += Duration::days(self.day_offset);
+        // Stops at the bounds of representable dates
+        let add_days = |date: NaiveDate, days: i64| {
+            Duration::try_days(days)
+                .and_then(|delta| date.checked_add_signed(delta))
+                .unwrap_or(if days < 0 { NaiveDate::MIN } else { NaiveDate::MAX })
+        };
+
+        date = add_days(date, self.day_offset);
 
         match self.wday_offset {
             WeekDayOffset::None => {}
@@ -233,16 +240,16 @@ impl DateOffset {
                     - target.days_since(Weekday::Mon))
                     % 7;
 
-                date -= Duration::days(diff.into());
-                debug_assert_eq!(date.weekday(), target);
+                date = add_days(date, -i64::from(diff));
+                debug_assert!(date == NaiveDate::MIN || date.weekday() == target);
             }
             WeekDayOffset::Next(target) => {
                 let diff = (7 + target.days_since(Weekday::Mon)
                     - date.weekday().days_since(Weekday::Mon))
                     % 7;
 
-                date += Duration::days(diff.into());
-                debug_assert_eq!(date.weekday(), target);
+                date = add_days(date, diff.into());
+                debug_assert!(date == NaiveDate::MAX || date.weekday() == target);
             }
         }
 
